@@ -411,6 +411,13 @@ Fixpoint find_bidi (fuel : nat) (p : path) : res (option N) :=
 
 Definition text_inputs : list str := [L_text; L_search; L_tel; L_url; L_email].
 
+(* get_dir_parent: the nearest HTML ancestor (direction is inherited through foreign ancestors) *)
+Fixpoint dir_parent (fuel : nat) (p : path) : option path :=
+  match get_parent p true with
+  | None => None
+  | Some pp => if is_html_tag pp then Some pp
+               else match fuel with O => None | S f => dir_parent f pp end
+  end.
 Fixpoint match_dir (fuel : nat) (op : option path) (dirn : N) : res bool :=
   match fuel with
   | O => Raise OutOfFuel
@@ -453,12 +460,12 @@ Fixpoint match_dir (fuel : nat) (op : option path) (dirn : N) : res bool :=
                  end) l
             end
           else if root then Ok (N.eqb SEL_DIR_LTR dirn)
-          else match_dir f (get_parent p true) dirn
+          else match_dir f (dir_parent (length p) p) dirn
         else
           do fb <- find_bidi (node_depth (match node_at p with Some n => n | None => Str KText [] end)) p ;;
           match fb with
           | Some d' => Ok (N.eqb d' dirn)
-          | None => if root then Ok (N.eqb SEL_DIR_LTR dirn) else match_dir f (get_parent p true) dirn
+          | None => if root then Ok (N.eqb SEL_DIR_LTR dirn) else match_dir f (dir_parent (length p) p) dirn
           end
       | None =>
         let root := is_root p in
@@ -472,9 +479,9 @@ Fixpoint match_dir (fuel : nat) (op : option path) (dirn : N) : res bool :=
           do fb <- find_bidi (node_depth (match node_at p with Some n => n | None => Str KText [] end)) p ;;
           match fb with
           | Some d' => Ok (N.eqb d' dirn)
-          | None => match_dir f (get_parent p true) dirn      (* is_root is false here *)
+          | None => match_dir f (dir_parent (length p) p) dirn      (* is_root is false here *)
           end
-        else match_dir f (get_parent p true) dirn
+        else match_dir f (dir_parent (length p) p) dirn
       end
     end
   end.
@@ -767,15 +774,14 @@ Fixpoint indet_attrs (child form : path) (name : option nval) (l : list (akey * 
       else indet_attrs child form name l' r c h
     else indet_attrs child form name l' r c h
   end.
-Fixpoint indet_scan (p form : path) (name : option nval) (l : list path) : res bool :=
+Fixpoint indet_scan (form : path) (name : option nval) (l : list path) : res bool :=
   match l with
   | [] => Ok false
   | c :: l' =>
-    if path_eqb c p then indet_scan p form name l'
-    else if str_eqb (get_tag c) L_input then
+    if str_eqb (get_tag c) L_input then
       do ck <- indet_attrs c form name (attrs_at c) false false false ;;
-      if ck then Ok true else indet_scan p form name l'
-    else indet_scan p form name l'
+      if ck then Ok true else indet_scan form name l'
+    else indet_scan form name l'
   end.
 Definition match_indeterminate (p : path) : M bool :=
   mdo name <- lift (get_attribute_by_name p L_name) ;;;
@@ -787,7 +793,7 @@ Definition match_indeterminate (p : path) : M bool :=
     match find (fun e => path_eqb (fst (fst e)) f && onval_eqb (snd (fst e)) name) (m_indet m) with
     | Some e => Ok (snd e, m)
     | None =>
-      match indet_scan p f name (get_tag_descendants f true) with
+      match indet_scan f name (get_tag_descendants f true) with
       | Raise e => Raise e
       | Ok checked =>
         let mt := negb checked in
